@@ -133,5 +133,8 @@ Definition known_class (s : store) : nat :=
    is one selector *)
 Definition shape_b (a : ann) : bool :=
   (a_kind a <=? 3) && (if Nat.eqb (a_kind a) 0 then Nat.eqb (length (a_leaves a)) 1 else true).
+(* an annotation targets annotations that exist already: earlier handles *)
+Definition back_b (h : nat) (a : ann) : bool :=
+  forallb (fun lf => match lf with LAnn a0 | LAnnText a0 _ _ _ => a0 <? h | _ => true end) (a_leaves a).
 Definition hyps_ok (s : store) : bool :=
-  store_ok s && forallb (fun ha => shape_b (snd ha)) (live_items (anns s)).
+  store_ok s && forallb (fun ha => shape_b (snd ha) && back_b (fst ha) (snd ha)) (live_items (anns s)).
